@@ -557,6 +557,12 @@ func (p *Proxy) handle(ctx *Context, conn net.Conn, brw *bufio.ReadWriter) error
 		return nil
 	}
 
+	// A response of unknown length that is not chunked ends where the connection ends, and
+	// net/http writes it with "Connection: close". The connection then has to end with it.
+	if chunked := len(res.TransferEncoding) > 0 && res.TransferEncoding[0] == "chunked"; res.ContentLength < 0 && !chunked {
+		res.Close = true
+	}
+
 	var closing error
 	if req.Close || res.Close || p.Closing() {
 		log.Debugf("martian: received close request: %v", req.RemoteAddr)
